@@ -494,4 +494,161 @@ theorem framed_unwrap {α} (b : Nat) (m : M α) (h : Framed b m) : Framed b (unw
   unfold unwrap
   rcases hm : m s with ⟨(a | e | _), s1⟩ <;> (rw [hm] at this; exact this)
 
+
+/-! ### `finish` frames -/
+
+/-- the TSIG part of `finish_with_mac` -/
+def finishTsigPart (macFn : Tsig → List UInt8 → List UInt8) (t : Option Tsig) : M (Nat × Option (List UInt8)) :=
+  match t with
+  | some ts => do
+    let s1 ← M.get
+    if s1.cursor > s1.octets.size then M.panic
+    else do
+      let message := (s1.octets.extract 0 s1.cursor).toList
+      let mac : Option (List UInt8) := match ts.mode with
+        | .unsigned _ => none
+        | _ => some (macFn ts message)
+      let rdata := tsigRdata ts.rr (tsigAlgName ts.mode) (mac.getD [])
+      M.modify fun s => { s with tsig := none, available := s.available + ts.reservedLen }
+      unwrap (addRr .none ts.rr.keyName T_TSIG QC_ANY (ttlFrom 0) rdata)
+      let s2 ← M.get
+      pure (s2.cursor, mac)
+  | none => do
+    let s2 ← M.get
+    pure (s2.cursor, none)
+
+/-- the EDNS part of `finish_with_mac` -/
+def finishEdnsPart (e : Option Edns) : M Unit :=
+  match e with
+  | some e => do
+    M.modify fun s => { s with available := s.available + Gen.OPT_RECORD_SIZE }
+    unwrap (addRr .none WName.root T_OPT e.payload ((e.upper * 16777216) % 4294967296) [])
+  | none => pure ()
+
+theorem finishWithMac_eq (macFn : Tsig → List UInt8 → List UInt8) (s : State) :
+    finishWithMac macFn s =
+      (do write Gen.QDCOUNT_START (u16be s.qdcount); write Gen.ANCOUNT_START (u16be s.ancount)
+          write Gen.NSCOUNT_START (u16be s.nscount); write Gen.ARCOUNT_START (u16be s.arcount)
+          finishEdnsPart s.edns; finishTsigPart macFn s.tsig) s := by
+  unfold finishWithMac
+  rw [bind_ok (get_apply s)]
+  generalize s.edns = e
+  generalize s.tsig = t
+  cases e <;> rfl
+
+theorem framed_finishEdnsPart (b : Nat) (hb : 4 ≤ b) (e : Option Edns) : Framed b (finishEdnsPart e) := by
+  unfold finishEdnsPart
+  split
+  · exact framed_bind (framed_modify b _ fun s => ⟨rfl, rfl, rfl, fun h _ => h⟩) fun _ =>
+      framed_unwrap b _ (framed_addRr b hb _ _ _ _ _ _)
+  · exact framed_pure b ()
+
+theorem framed_finishTsigPart (b : Nat) (hb : 4 ≤ b) (macFn : Tsig → List UInt8 → List UInt8) (t : Option Tsig) :
+    Framed b (finishTsigPart macFn t) := by
+  unfold finishTsigPart
+  split
+  · refine framed_bind (framed_get b) fun s1 => ?_
+    split
+    · exact framed_panic b
+    · refine framed_bind (framed_modify b _ fun s => ⟨rfl, rfl, rfl, fun h _ => h⟩) fun _ => ?_
+      refine framed_bind (framed_unwrap b _ (framed_addRr b hb _ _ _ _ _ _)) fun _ => ?_
+      exact framed_bind (framed_get b) fun s2 => framed_pure b _
+  · exact framed_bind (framed_get b) fun s2 => framed_pure b _
+
+/-- the length `finish_with_mac` returns is the final cursor -/
+theorem finishTsigPart_len (macFn : Tsig → List UInt8 → List UInt8) (t : Option Tsig) (s s' : State) (len : Nat)
+    (mac : Option (List UInt8)) (h : finishTsigPart macFn t s = (.ok (len, mac), s')) : len = s'.cursor := by
+  unfold finishTsigPart at h
+  split at h
+  · rw [bind_ok (get_apply s)] at h
+    split at h
+    · cases h
+    · rw [bind_ok (modify_apply _ _)] at h
+      rw [bind_apply] at h
+      split at h
+      · rename_i a s1 _
+        rw [bind_ok (get_apply s1), pure_apply] at h
+        cases h; rfl
+      · cases h
+      · cases h
+  · rw [bind_ok (get_apply s), pure_apply] at h
+    cases h; rfl
+
+/-- **`finish` frames.** If `finish` succeeds on a writer whose records start at `b ≥ 12`, the
+    finished message has at least `b` octets; its octets 0, 1 and `12 … b-1` (the question) are the
+    buffer's, the flag octets agree on QR/opcode/RD and on RA/Z/AD/CD, and octets 4–5 are QDCOUNT. -/
+theorem finish_frame (b : Nat) (hb : 12 ≤ b) (s : State) (macFn : Tsig → List UInt8 → List UInt8)
+    (hc : b ≤ s.cursor) (hr : b ≤ s.rrStart) (hsz : b ≤ s.octets.size)
+    (bytes : Bytes) (mac : Option (List UInt8)) (h : finish s macFn = .ok (bytes, mac)) :
+    b ≤ bytes.size ∧
+    (∀ i, i < b → (i < 2 ∨ 12 ≤ i) → bytes[i]? = s.octets[i]?) ∧
+    (bytes.getD 2 0 &&& 0xF9 = s.octets.getD 2 0 &&& 0xF9) ∧
+    (bytes.getD 3 0 &&& 0xF0 = s.octets.getD 3 0 &&& 0xF0) ∧
+    bytes[4]? = (u16be s.qdcount)[0]? ∧ bytes[5]? = (u16be s.qdcount)[1]? := by
+  unfold finish at h
+  rw [finishWithMac_eq] at h
+  have c : Gen.QDCOUNT_START = 4 ∧ Gen.ANCOUNT_START = 6 ∧ Gen.NSCOUNT_START = 8 ∧ Gen.ARCOUNT_START = 10 :=
+    ⟨rfl, rfl, rfl, rfl⟩
+  obtain ⟨c1, c2, c3, c4⟩ := c
+  rw [c1, c2, c3, c4, writeCounts_k s _ (by omega)] at h
+  -- the state after the counts
+  generalize hs4 : ({ s with octets := withCounts s } : State) = s4 at h
+  have ho4 : s4.octets = withCounts s := by rw [← hs4]
+  have hc4 : s4.cursor = s.cursor := by rw [← hs4]
+  have hr4 : s4.rrStart = s.rrStart := by rw [← hs4]
+  have hget4 : ∀ i, (i < 4 ∨ 12 ≤ i) → (withCounts s)[i]? = s.octets[i]? := by
+    intro i hi
+    unfold withCounts
+    rw [writeAt_getElem?, if_neg (by rw [u16be_length]; omega), writeAt_getElem?, if_neg (by rw [u16be_length]; omega),
+      writeAt_getElem?, if_neg (by rw [u16be_length]; omega), writeAt_getElem?, if_neg (by rw [u16be_length]; omega)]
+  have hsz4 : (withCounts s).size = s.octets.size := by simp [withCounts, writeAt_size]
+  have hq4 : (withCounts s)[4]? = (u16be s.qdcount)[0]? ∧ (withCounts s)[5]? = (u16be s.qdcount)[1]? := by
+    unfold withCounts
+    constructor
+    · rw [writeAt_getElem?, if_neg (by rw [u16be_length]; omega), writeAt_getElem?, if_neg (by rw [u16be_length]; omega),
+        writeAt_getElem?, if_neg (by rw [u16be_length]; omega), writeAt_getElem?, if_pos (by rw [u16be_length]; omega)]
+    · rw [writeAt_getElem?, if_neg (by rw [u16be_length]; omega), writeAt_getElem?, if_neg (by rw [u16be_length]; omega),
+        writeAt_getElem?, if_neg (by rw [u16be_length]; omega), writeAt_getElem?, if_pos (by rw [u16be_length]; omega)]
+  -- the EDNS and TSIG parts frame
+  have hfr := framedAt_bind (framed_finishEdnsPart b (by omega) s.edns s4)
+    (fun _ _ s' _ => framed_finishTsigPart b (by omega) macFn s.tsig s') (by rw [hc4]; exact hc) (by rw [hr4]; exact hr)
+  rcases hres : (finishEdnsPart s.edns >>= fun _ => finishTsigPart macFn s.tsig) s4 with ⟨(r | e | _), s'⟩
+  · rw [hres] at h hfr
+    obtain ⟨len, mac'⟩ := r
+    have hbytes : bytes = s'.octets.extract 0 len := by
+      simp only [Out.ok.injEq, Prod.mk.injEq] at h
+      exact h.1.symm
+    have hfr' : Fr b s4 s' := hfr
+    -- the returned length is the final cursor
+    have hlen : len = s'.cursor := by
+      rw [bind_apply] at hres
+      split at hres
+      · exact finishTsigPart_len macFn s.tsig _ _ _ _ hres
+      · cases hres
+      · cases hres
+    have hcur := hfr'.cur
+    have hs' : s'.octets.size = s.octets.size := by rw [hfr'.size, ho4, hsz4]
+    have hget : ∀ i, i < b → bytes[i]? = s'.octets[i]? := by
+      intro i hi
+      rw [hbytes, Array.getElem?_extract]
+      rw [if_pos (by omega)]
+      simp
+    have hgetD : ∀ i, i < b → bytes.getD i 0 = s'.octets.getD i 0 := by
+      intro i hi
+      rw [Array.getD_eq_getD_getElem?, Array.getD_eq_getD_getElem?, hget i hi]
+    have hD4 : ∀ i, (i < 4 ∨ 12 ≤ i) → s4.octets.getD i 0 = s.octets.getD i 0 := by
+      intro i hi
+      rw [Array.getD_eq_getD_getElem?, Array.getD_eq_getD_getElem?, ho4, hget4 i hi]
+    refine ⟨?_, ?_, ?_, ?_, ?_, ?_⟩
+    · rw [hbytes, Array.size_extract]; omega
+    · intro i hi hr'
+      rw [hget i hi, hfr'.body i hi (by omega) (by omega), ho4]
+      exact hget4 i (by omega)
+    · rw [hgetD 2 (by omega), hfr'.o2, hD4 2 (by omega)]
+    · rw [hgetD 3 (by omega), hfr'.o3, hD4 3 (by omega)]
+    · rw [hget 4 (by omega), hfr'.body 4 (by omega) (by omega) (by omega), ho4]; exact hq4.1
+    · rw [hget 5 (by omega), hfr'.body 5 (by omega) (by omega) (by omega), ho4]; exact hq4.2
+  · rw [hres] at h; cases h
+  · rw [hres] at h; cases h
+
 end QV.Writer
